@@ -916,6 +916,21 @@ func (f *frame) transCall(x *CCall, env *Env) TV {
 		}
 		o := f.snapshot(f.trans(x.Args[0], &ne), env.old)
 		return TV{T: f.sameSnapshot(o, arg(0), env.st), S: "Bool"}
+	case "freshInCall":
+		// freshInCall(p): the object pointer p points to was allocated during
+		// this call of the function (its reference lies above the allocation
+		// counter at entry): nothing that existed before the call - a pool, a
+		// global, another goroutine - can hold a reference to it unless this call
+		// handed one out
+		need(1)
+		v := arg(0)
+		if v.Ty == nil {
+			cfail("freshInCall needs a pointer")
+		}
+		if _, ok := v.Ty.Underlying().(*types.Pointer); !ok {
+			cfail("freshInCall needs a pointer")
+		}
+		return TV{T: "(>= " + v.T + " |alloc!top|)", S: "Bool"}
 	case "freshInLoop":
 		// freshInLoop(s): the backing array of slice s (if any element) was
 		// allocated during the current iteration of the innermost loop that
